@@ -888,3 +888,419 @@ theorem CacheOK.commit {s : IState} {pb : Option (Bytes × List Bytes)} (hr : IR
     rw [hget _ _ hcm, if_neg hcv]
 
 end Canopy.Store
+
+namespace Canopy.Store
+open Canopy
+
+/-! ## rollback -/
+
+theorem smGet_prune {idb : DB} (hs : SSorted idb) (lo hi : Nat) (k : Bytes) (w : Nat) (hw : w ≤ maxVer) :
+    smGet (idxPrune idb lo hi) (IKey k w) = if lo ≤ w ∧ w ≤ hi then none else smGet idb (IKey k w) := by
+  unfold idxPrune
+  rw [smGet_filter hs]
+  cases hg : smGet idb (IKey k w) with
+  | none => simp
+  | some x =>
+    simp only [Option.filter_some]
+    unfold IKey
+    rw [versionOf_mkKey _ hw]
+    by_cases h : lo ≤ w ∧ w ≤ hi
+    · simp [h]
+    · rw [if_neg h]
+      have : (decide (lo ≤ w) && decide (w ≤ hi)) = false := by
+        simp only [Bool.and_eq_false_iff, decide_eq_false_iff_not]
+        by_cases h1 : lo ≤ w
+        · right; exact fun h2 => h ⟨h1, h2⟩
+        · left; exact h1
+      simp [this]
+
+theorem DBDisc.prune {idb : DB} (hs : SSorted idb) (hd : DBDisc idb) (lo hi : Nat) : DBDisc (idxPrune idb lo hi) := by
+  have hget := fun k w hw => smGet_prune hs lo hi k w hw
+  -- an entry that survived the pruning
+  have surv : ∀ k w raw, w ≤ maxVer → smGet (idxPrune idb lo hi) (IKey k w) = some raw →
+      ¬ (lo ≤ w ∧ w ≤ hi) ∧ smGet idb (IKey k w) = some raw := by
+    intro k w raw hw h
+    rw [hget k w hw] at h
+    by_cases hc : lo ≤ w ∧ w ≤ hi
+    · rw [if_pos hc] at h; cases h
+    · rw [if_neg hc] at h; exact ⟨hc, h⟩
+  have keep : ∀ k w raw, w ≤ maxVer → ¬ (lo ≤ w ∧ w ≤ hi) → smGet idb (IKey k w) = some raw →
+      smGet (idxPrune idb lo hi) (IKey k w) = some raw := by
+    intro k w raw hw hc h; rw [hget k w hw, if_neg hc]; exact h
+  constructor
+  · intro h w raw hh hw hg
+    obtain ⟨hc, hg'⟩ := surv _ w raw hw hg
+    obtain ⟨e, H, hl, hraw, hhdr⟩ := hd.hgt h w raw hh hw hg'
+    exact ⟨e, H, hl, hraw, keep _ w _ hw hc hhdr⟩
+  · intro H w w' raw raw' hw hw' hg hg'
+    exact hd.hdr_uniq H w w' raw raw' hw hw' (surv _ w raw hw hg).2 (surv _ w' raw' hw' hg').2
+  · intro h i w raw hh hi hw hg
+    obtain ⟨hc, hg'⟩ := surv _ w raw hw hg
+    obtain ⟨e, th, hl, hraw, raw2, hrec⟩ := hd.txi h i w raw hh hi hw hg'
+    exact ⟨e, th, hl, hraw, raw2, keep _ w _ hw hc hrec⟩
+  · intro th w raw hw hg
+    exact hd.txh th w raw hw (surv _ w raw hw hg).2
+  · intro th w w' raw raw' hw hw' hg hg'
+    exact hd.txh_uniq th w w' raw raw' hw hw' (surv _ w raw hw hg).2 (surv _ w' raw' hw' hg').2
+
+theorem Cache.lookup_nil (k : Bytes) : Cache.lookup [] k = none := rfl
+
+theorem CacheOK.nil (idb : DB) : CacheOK idb [] := by
+  intro H b c _ h; cases h
+
+end Canopy.Store
+
+namespace Canopy.Store
+open Canopy
+
+/-! ## the invariant of the process, and the discipline of a history -/
+
+/-- what the node's commit path guarantees about an operation, given the current state: a block is
+indexed for the next height, once per commit, under a hash not used by any stored or cached block, with
+32-byte pairwise distinct transaction hashes not indexed before; heights are `uint64` -/
+def Disc (s : IState) : IOp → Prop
+  | .indexBlock h H txs =>
+    h = s.st.version + 1 ∧ H.length = 32 ∧ (∀ th ∈ txs, th.length = 32) ∧ txs.Nodup ∧ txs.length < B64 ∧
+    (∀ k op, smGet s.idxOv k = some op → IsQC k op) ∧ FreshH s.idb H ∧ FreshTxs s.idb txs ∧
+    s.cache.lookup (blockHashKey H) = none
+  | .indexQC h _ => h < B64
+  | .getBlock vw h _ => h < B64 ∧ ∀ v, vw = some v → v ≤ maxVer
+  | .getQC vw h => h < B64 ∧ ∀ v, vw = some v → v ≤ maxVer
+  | _ => True
+
+structure CInv (K : Bytes → Prop) (s : IState) (m : VMap) (pb : Option (Bytes × List Bytes)) : Prop where
+  inv : IInv K IdxKey s m
+  disc : DBDisc s.idb
+  cache : CacheOK s.idb s.cache
+  pend : PendOK s pb
+
+theorem CInv.init (K : Bytes → Prop) : CInv K {} [] none where
+  inv := IInv.init K IdxKey
+  disc := DBDisc.init
+  cache := CacheOK.nil _
+  pend := ⟨List.Pairwise.nil, fun _ k op h => by simp [smGet] at h, fun _ _ h => by cases h⟩
+
+theorem sorted_foldl_smSet (es : List (Bytes × TOp)) (acc : Overlay) (h : SSorted acc) :
+    SSorted (es.foldl (fun o e => smSet o e.1 e.2) acc) := by
+  induction es generalizing acc with
+  | nil => exact h
+  | cons e es ih => exact ih _ (sorted_smSet h _ _)
+
+/-- a cache-only step: a read through the cache keeps every invariant -/
+theorem CInv.read {K : Bytes → Prop} {s : IState} {m : VMap} {pb : Option (Bytes × List Bytes)} (hi : CInv K s m pb)
+    (hver : s.st.version ≤ maxVer) (vw : Option Nat) (h : Nat) (hh : h < B64) (hv : ∀ v, vw = some v → v ≤ maxVer) :
+    CacheOK s.idb (getBlockByHeight .byHashKey s.cache (s.view vw) h).2 ∧
+    (∀ H txs, pb = some (H, txs) → ∀ b,
+      (getBlockByHeight .byHashKey s.cache (s.view vw) h).2.lookup (blockHashKey H) = some b →
+        b = { hHeight := s.st.version + 1, hash := H, txs := txs }) := by
+  have hr := hi.inv.idx
+  have hw := hr.wfl idxKey_wf hver
+  have hold := fun H txs hpb => (hi.pend.block H txs hpb).2.2.2.2.2.2.2.2.2
+  unfold getBlockByHeight
+  simp only
+  by_cases he : ((s.view vw).getB (blockHeightKey h)).isEmpty = true
+  · rw [if_pos he]; exact ⟨hi.cache, hold⟩
+  · rw [if_neg he]
+    cases hl : s.cache.lookup ((s.view vw).getB (blockHeightKey h)) with
+    | some b =>
+      simp only
+      refine ⟨?_, ?_⟩
+      · intro H b' c hl32 hlook
+        rw [Cache.lookup_touch] at hlook
+        exact hi.cache H b' c hl32 hlook
+      · intro H txs hpb b' hlook
+        rw [Cache.lookup_touch] at hlook
+        exact hold H txs hpb b' hlook
+    | none =>
+      simp only
+      by_cases hpe : (s.view vw).pend.isEmpty = true
+      · rw [if_pos hpe]
+        -- the reading view is a read-only view of the committed data
+        obtain ⟨v0, hv0, hview⟩ : ∃ v0, v0 ≤ maxVer ∧ s.view vw = roV s.idb v0 := by
+          cases vw with
+          | none =>
+            refine ⟨s.st.version, hver, ?_⟩
+            have : s.idxOv = [] := by
+              have : s.live.pend.isEmpty = true := hpe
+              simpa [IState.live] using this
+            simp [IState.view, IState.live, roV, this]
+          | some v => exact ⟨v, hv v rfl, rfl⟩
+        rw [hview] at he ⊢
+        have hne : (roV s.idb v0).getB (blockHeightKey h) ≠ [] := by
+          intro e; rw [e] at he; simp at he
+        obtain ⟨H0, hl0, hk, hle, hhdr⟩ := resolve_height hw hi.disc hv0 hh hne rfl
+        rw [hk]
+        refine ⟨?_, ?_⟩
+        · intro H b' c hl32 hlook hcb hcm hhdr'
+          rcases Cache.lookup_add hlook with ⟨ek, eb⟩ | ⟨_, hl'⟩
+          · have : H = H0 := blockHashKey_inj ek
+            subst this
+            have : c = h := hi.disc.hdr_uniq H c h _ _ hcm (by omega) hhdr' hhdr
+            subst this
+            rw [eb, getBlock_resolved hr hver hi.disc hv0 hle hh hhdr]
+          · exact hi.cache H b' c hl32 hl' hcb hcm hhdr'
+        · intro H txs hpb b' hlook
+          rcases Cache.lookup_add hlook with ⟨ek, _⟩ | ⟨_, hl'⟩
+          · -- the pending block's hash is fresh: no committed height resolves to it
+            have : H = H0 := blockHashKey_inj ek
+            subst this
+            have := (hi.pend.block H txs hpb).2.2.2.2.2.1 h (by omega)
+            rw [this] at hhdr; cases hhdr
+          · exact hold H txs hpb b' hl'
+      · rw [if_neg hpe]; exact ⟨hi.cache, hold⟩
+
+end Canopy.Store
+
+namespace Canopy.Store
+open Canopy
+
+/-- the index operations of a disciplined block are on real index keys -/
+theorem Disc.opOK {K : Bytes → Prop} {s : IState} {op : IOp} (hd : Disc s op) (hs : ∀ o, op = .store o → OpOK K o)
+    (hv : s.st.version + 1 < B64) : IOpOK K IdxKey op := by
+  cases op with
+  | store o => exact hs o rfl
+  | indexBlock h H txs =>
+    obtain ⟨rfl, hl, hlt, _, hlen, _⟩ := hd
+    refine ⟨IdxKey.blockHash H hl, IdxKey.blockHeight _ hv, ?_⟩
+    intro p hp
+    have := List.mem_zipIdx_iff_getElem?.mp hp
+    obtain ⟨hi, he⟩ := List.getElem?_eq_some_iff.mp this
+    exact ⟨IdxKey.txHash p.1 (hlt p.1 (he ▸ List.getElem_mem hi)), IdxKey.txHeightIndex _ p.2 hv (Nat.lt_trans hi hlen)⟩
+  | indexQC h bh => exact IdxKey.qcHeight h hd
+  | _ => trivial
+
+/-- **every disciplined operation preserves the invariant** -/
+theorem CInv.apply {K : Bytes → Prop} (hK : WFKeys K) {s : IState} {m : VMap} {pb : Option (Bytes × List Bytes)}
+    (hi : CInv K s m pb) (op : IOp) (hd : Disc s op) (hs : ∀ o, op = .store o → OpOK K o)
+    (hver : s.st.version + 1 < maxVer) :
+    ∃ m' pb', CInv K (s.apply .byHashKey op) m' pb' := by
+  have hmv : maxVer + 1 = B64 := rfl
+  have hv64 : s.st.version + 1 < B64 := by omega
+  obtain ⟨m', hinv', _, _⟩ := hi.inv.apply hK .byHashKey op (hd.opOK hs hv64) hver
+  -- a step that leaves the database, the pending operations, the cache and the version alone
+  cases op with
+  | purgeCache =>
+    refine ⟨m', pb, hinv', hi.disc, CacheOK.nil _, ⟨hi.pend.sorted, hi.pend.noBlock, ?_⟩⟩
+    intro H txs hpb
+    obtain ⟨a, b, c, d, e, f, g, h1, h2, _⟩ := hi.pend.block H txs hpb
+    exact ⟨a, b, c, d, e, f, g, h1, h2, fun b' hb' => by cases hb'⟩
+  | getBlock vw h hdr =>
+    obtain ⟨hh, hv⟩ := hd
+    cases hdr with
+    | false =>
+      obtain ⟨hc', hp'⟩ := hi.read (by omega) vw h hh hv
+      refine ⟨m', pb, hinv', hi.disc, hc', ⟨hi.pend.sorted, hi.pend.noBlock, ?_⟩⟩
+      intro H txs hpb
+      obtain ⟨a, b, c, d, e, f, g, h1, h2, _⟩ := hi.pend.block H txs hpb
+      exact ⟨a, b, c, d, e, f, g, h1, h2, hp' H txs hpb⟩
+    | true =>
+      -- the header read never adds: at most a touch
+      have hlook : ∀ k, (getBlockHeaderByHeight .byHashKey s.cache (s.view vw) h).2.lookup k = s.cache.lookup k := by
+        intro k
+        unfold getBlockHeaderByHeight
+        simp only
+        split
+        · rfl
+        · split
+          · exact Cache.lookup_touch _ _ _
+          · rfl
+      refine ⟨m', pb, hinv', hi.disc, ?_, ⟨hi.pend.sorted, hi.pend.noBlock, ?_⟩⟩
+      · intro H b c hl hlk
+        rw [show (s.apply .byHashKey (.getBlock vw h true)).cache = (getBlockHeaderByHeight .byHashKey s.cache (s.view vw) h).2 from rfl,
+          hlook] at hlk
+        exact hi.cache H b c hl hlk
+      · intro H txs hpb
+        obtain ⟨a, b, c, d, e, f, g, h1, h2, h3⟩ := hi.pend.block H txs hpb
+        refine ⟨a, b, c, d, e, f, g, h1, h2, fun b' hb' => h3 b' ?_⟩
+        rw [show (s.apply .byHashKey (.getBlock vw h true)).cache = (getBlockHeaderByHeight .byHashKey s.cache (s.view vw) h).2 from rfl,
+          hlook] at hb'
+        exact hb'
+  | getQC vw h =>
+    obtain ⟨hh, hv⟩ := hd
+    obtain ⟨hc', hp'⟩ := hi.read (by omega) vw h hh hv
+    refine ⟨m', pb, hinv', hi.disc, hc', ⟨hi.pend.sorted, hi.pend.noBlock, ?_⟩⟩
+    intro H txs hpb
+    obtain ⟨a, b, c, d, e, f, g, h1, h2, _⟩ := hi.pend.block H txs hpb
+    exact ⟨a, b, c, d, e, f, g, h1, h2, hp' H txs hpb⟩
+  | indexQC h bh =>
+    refine ⟨m', pb, hinv', hi.disc, hi.cache, ⟨sorted_smSet hi.pend.sorted _ _, ?_, ?_⟩⟩
+    · intro hpb k op hg
+      have hg' : smGet (smSet s.idxOv (qcHeightKey h) (.set (encQC h bh))) k = some op := hg
+      rw [smGet_smSet] at hg'
+      by_cases hk : k = qcHeightKey h
+      · rw [if_pos hk] at hg'; injection hg' with hg'
+        exact ⟨h, bh, hd, hk, hg'.symm⟩
+      · rw [if_neg hk] at hg'; exact hi.pend.noBlock hpb k op hg'
+    · intro H txs hpb
+      obtain ⟨a, b, c, d, e, f, g, h1, h2, h3⟩ := hi.pend.block H txs hpb
+      refine ⟨a, b, c, d, e, f, g, ?_, ?_, h3⟩
+      · intro k op hm
+        show smGet (smSet s.idxOv (qcHeightKey h) (.set (encQC h bh))) k = some op
+        rw [smGet_smSet, if_neg]
+        · exact h1 k op hm
+        · intro hk
+          rw [hk] at hm
+          rcases mem_blockRecs.mp hm with ⟨e1, _⟩ | ⟨e1, _⟩ | ⟨i, th, _, ⟨e1, _⟩ | ⟨e1, _⟩⟩ <;>
+            simp [qcHeightKey, blockHashKey, blockHeightKey, txHashKey, txHeightIndexKey, joinLenPrefix] at e1
+      · intro k op hg
+        have hg' : smGet (smSet s.idxOv (qcHeightKey h) (.set (encQC h bh))) k = some op := hg
+        rw [smGet_smSet] at hg'
+        by_cases hk : k = qcHeightKey h
+        · rw [if_pos hk] at hg'; injection hg' with hg'
+          exact Or.inr ⟨h, bh, hd, hk, hg'.symm⟩
+        · rw [if_neg hk] at hg'; exact h2 k op hg'
+  | indexBlock h H txs =>
+    obtain ⟨rfl, hl, hlt, hnd, hlen, honly, hfH, hfT, hcl⟩ := hd
+    have hov := indexBlock_ov .byHashKey s (s.st.version + 1) H txs
+    have hgetov : ∀ k, smGet (s.indexBlock .byHashKey (s.st.version + 1) H txs).idxOv k =
+        match lookupLast (blockRecs (s.st.version + 1) H txs) k with
+        | some v => some v
+        | none => smGet s.idxOv k := by
+      intro k; rw [hov]; exact smGet_foldl_last _ _ k
+    have happ : s.apply .byHashKey (.indexBlock (s.st.version + 1) H txs) = s.indexBlock .byHashKey (s.st.version + 1) H txs := rfl
+    rw [happ] at hinv' ⊢
+    have hcache : (s.indexBlock .byHashKey (s.st.version + 1) H txs).cache =
+        s.cache.add (blockHashKey H) { hHeight := s.st.version + 1, hash := H, txs := txs } := rfl
+    refine ⟨m', some (H, txs), hinv', hi.disc, ?_, ⟨?_, ?_, ?_⟩⟩
+    · -- the cache: the new entry names a block whose header is not committed
+      intro H' b c hl' hlook hcb hcm hhdr
+      have hhdr' : smGet s.idb (IKey (blockHashKey H') c) = some (rawAlive (encHdr c H')) := hhdr
+      rw [hcache] at hlook
+      rcases Cache.lookup_add hlook with ⟨ek, _⟩ | ⟨_, hl''⟩
+      · rw [blockHashKey_inj ek, hfH c hcm] at hhdr'; cases hhdr'
+      · exact hi.cache H' b c hl' hl'' hcb hcm hhdr'
+    · rw [hov]; exact sorted_foldl_smSet _ _ hi.pend.sorted
+    · intro h; cases h
+    · intro H' txs' hpb
+      injection hpb with hpb
+      injection hpb with e1 e2
+      subst e1 e2
+      refine ⟨hl, hlt, hnd, hlen, hv64, hfH, hfT, ?_, ?_, ?_⟩
+      · intro k op hm
+        have hm0 : (k, op) ∈ blockRecs (s.st.version + 1) H txs := hm
+        rw [hgetov k, lookupLast_of_functional hm0 fun v' hm' => blockRecs_functional hv64 hlt hnd hlen hm' hm0]
+      · intro k op hg
+        show (k, op) ∈ blockRecs (s.st.version + 1) H txs ∨ IsQC k op
+        rw [hgetov k] at hg
+        cases hll : lookupLast (blockRecs (s.st.version + 1) H txs) k with
+        | some v => rw [hll] at hg; injection hg with hg; exact Or.inl (hg ▸ lookupLast_mem hll)
+        | none => rw [hll] at hg; exact Or.inr (honly k op hg)
+      · intro b hlook
+        rw [hcache] at hlook
+        rcases Cache.lookup_add hlook with ⟨_, eb⟩ | ⟨hne, _⟩
+        · exact eb
+        · exact absurd rfl hne
+  | reset =>
+    show ∃ m' pb', CInv K (match s.st.main with | [_] => s.reset | _ => s) m' pb'
+    cases hm : s.st.main with
+    | nil => exact ⟨m, pb, hi⟩
+    | cons l rest =>
+      cases rest with
+      | cons _ _ => exact ⟨m, pb, hi⟩
+      | nil =>
+        have hinv'' : IInv K IdxKey s.reset m' := by
+          have : s.apply .byHashKey .reset = s.reset := by simp [IState.apply, hm]
+          rw [← this]; exact hinv'
+        exact ⟨m', none, hinv'', hi.disc, hi.cache,
+          ⟨List.Pairwise.nil, fun _ k op h => by simp [IState.reset, smGet] at h, fun _ _ h => by cases h⟩⟩
+  | store sop =>
+    by_cases hc : sop = .commit
+    · subst hc
+      have happ : s.apply .byHashKey (.store .commit) = s.commit := rfl
+      rw [happ] at hinv' ⊢
+      cases hm : s.st.main with
+      | nil =>
+        have : s.commit = s := by unfold IState.commit; rw [hm]
+        rw [this]; exact ⟨m, pb, hi⟩
+      | cons l rest =>
+        cases rest with
+        | cons _ _ =>
+          have : s.commit = s := by unfold IState.commit; rw [hm]
+          rw [this]; exact ⟨m, pb, hi⟩
+        | nil =>
+          have hce : s.commit = IState.mk s.st.commit (applyBatch s.idb (idxBatch s.idxOv (s.st.version + 1))) [] s.cache := by
+            unfold IState.commit; rw [hm]
+          rw [hce] at hinv' ⊢
+          exact ⟨m', none, hinv', DBDisc.commit hi.inv.idx hi.disc hi.pend (by omega),
+            CacheOK.commit hi.inv.idx hi.disc hi.pend hi.cache (by omega),
+            ⟨List.Pairwise.nil, fun _ k op h => by simp [smGet] at h, fun _ _ h => by cases h⟩⟩
+    · by_cases hr : ∃ t, sop = .rollback t
+      · obtain ⟨t, rfl⟩ := hr
+        have happ : s.apply .byHashKey (.store (.rollback t)) =
+            match s.st.main with | [_] => (s.rollback t).getD s | _ => s := rfl
+        rw [happ] at hinv' ⊢
+        cases hm : s.st.main with
+        | nil => exact ⟨m, pb, hi⟩
+        | cons l rest =>
+          cases rest with
+          | cons _ _ => exact ⟨m, pb, hi⟩
+          | nil =>
+            rw [hm] at hinv'
+            simp only at hinv' ⊢
+            unfold IState.rollback at hinv' ⊢
+            cases hrb : s.st.rollback t with
+            | none => exact ⟨m, pb, hi⟩
+            | some st' =>
+              rw [hrb] at hinv'
+              simp only at hinv' ⊢
+              by_cases htv : t = s.st.version
+              · rw [if_pos htv]; exact ⟨m, pb, hi⟩
+              · rw [if_neg htv] at hinv' ⊢
+                simp only [Option.getD_some] at hinv' ⊢
+                exact ⟨m', none, hinv', DBDisc.prune hi.inv.idx.sorted hi.disc _ _, CacheOK.nil _,
+                  ⟨List.Pairwise.nil, fun _ k op h => by simp [smGet] at h, fun _ _ h => by cases h⟩⟩
+      · have hne2 : ∀ t, sop ≠ .rollback t := fun t e => hr ⟨t, e⟩
+        have hsame := apply_same_db s.st sop hc hne2
+        have happ : s.apply .byHashKey (.store sop) = { s with st := s.st.apply sop } := by
+          cases sop <;> first | rfl | exact absurd rfl hc | exact absurd rfl (hne2 _)
+        rw [happ] at hinv' ⊢
+        refine ⟨m', pb, hinv', hi.disc, hi.cache, ⟨hi.pend.sorted, hi.pend.noBlock, ?_⟩⟩
+        intro H txs hpb
+        have := hi.pend.block H txs hpb
+        dsimp only
+        rw [hsame.1]
+        exact this
+
+end Canopy.Store
+
+namespace Canopy.Store
+open Canopy
+
+/-- a disciplined history: every operation satisfies `Disc` in the state it is applied to -/
+def DiscRun (K : Bytes → Prop) : IState → List IOp → Prop
+  | _, [] => True
+  | s, op :: ops => Disc s op ∧ (∀ o, op = .store o → OpOK K o) ∧ DiscRun K (s.apply .byHashKey op) ops
+
+theorem CInv.run {K : Bytes → Prop} (hK : WFKeys K) : ∀ (ops : List IOp) {s : IState} {m : VMap}
+    {pb : Option (Bytes × List Bytes)}, CInv K s m pb → DiscRun K s ops → s.st.version + ops.length + 1 < maxVer →
+    (∃ m' pb', CInv K (runIOps .byHashKey s ops) m' pb') ∧ ∀ op ∈ ops, IOpOK K IdxKey op := by
+  intro ops
+  induction ops with
+  | nil => intro s m pb hi _ _; exact ⟨⟨m, pb, hi⟩, by simp⟩
+  | cons op ops ih =>
+    intro s m pb hi hd hver
+    simp only [List.length_cons] at hver
+    obtain ⟨hd1, hs1, hd2⟩ := hd
+    have hmv : maxVer + 1 = B64 := rfl
+    have hok : IOpOK K IdxKey op := hd1.opOK hs1 (by omega)
+    obtain ⟨m1, pb1, hi1⟩ := hi.apply hK op hd1 hs1 (by omega)
+    obtain ⟨_, _, hle, _⟩ := hi.inv.apply hK .byHashKey op hok (by omega)
+    obtain ⟨hres, hoks⟩ := ih hi1 hd2 (by omega)
+    refine ⟨hres, ?_⟩
+    intro o ho
+    rcases List.mem_cons.mp ho with rfl | ho
+    · exact hok
+    · exact hoks o ho
+
+/-- **`GetBlockByHeight` and `GetQCByHeight` of a read-only view answer what the database part says** -/
+theorem CInv.transparent {K : Bytes → Prop} {s : IState} {m : VMap} {pb : Option (Bytes × List Bytes)}
+    (hi : CInv K s m pb) {v h : Nat} (hv : v ≤ maxVer) (hh : h < B64) :
+    (getBlockByHeight .byHashKey s.cache (s.ro v) h).1 = (s.ro v).dbBlockByHeight h ∧
+    (getQCByHeight .byHashKey s.cache (s.ro v) h).1 =
+      (((s.ro v).dbQCByHeight h).1, ((s.ro v).dbQCByHeight h).2, (s.ro v).dbBlockByHeight h) := by
+  have hver : s.st.version ≤ maxVer := by have := hi.inv.st.rep.ver_lt; omega
+  have h1 : (getBlockByHeight .byHashKey s.cache (s.ro v) h).1 = (s.ro v).dbBlockByHeight h :=
+    Canopy.Store.transparent hi.inv.idx hver hi.disc hi.cache hv hh
+  exact ⟨h1, by unfold getQCByHeight; simp only; rw [h1]⟩
+
+end Canopy.Store
